@@ -218,4 +218,6 @@ def symrot(name, m, kind):
         return Rot([()] * m)
     if kind == "static":
         return Rot([((name, 1),)] * m)
+    if kind == "loop":  # varying orientation that returns to where it started (first == last, steps in between differ)
+        return Rot([(((name, min(i, m - 1 - i)), 1),) for i in range(m)])
     return Rot([(((name, i), 1),) for i in range(m)])
